@@ -24,7 +24,7 @@ def plan(tier):
                 'histories: 2-4 clients of different protocol versions and identities send scripts of requests that '
                 'succeed when sent alone (checked first on a twin store) to one engine under sys.monitoring LINE yield '
                 'injection - none of them may end in General Failure or an escaping exception',
-        'min_monitor': {'requests_wellformed': 500, 'engine_error_records_checked': 1,
+        'min_monitor': {'keys_registered_wrapped': 90, 'requests_wellformed': 500, 'engine_error_records_checked': 1,
                         'concurrent_requests_checked': 200, 'crypto_grid_requests': 2000},
         'assumptions': ['well-formed = constructed from kmip payload classes with in-range '
                         'enumerations and accepted by the server\'s own decoder',
